@@ -87,7 +87,7 @@ def groupBy (fields : List Bytes) : Machine (OMap (List Rec)) where
 def groupLike : Machine (OMap (List Rec)) where
   init := []
   step := fun m r =>
-    let k := Split.join [44] r.keys
+    let k := joinKey r.keys
     (m.put k ((m.get? k).getD [] ++ [r]), [])
   finish := fun m => (m.map (·.2)).flatten
 
